@@ -8,6 +8,7 @@ the real io.BufferedReader over a raw stream that returns short reads.
 Real: core/serialize.py, core/__init__.py, core/script.py (de)serialisers, io.BufferedReader.
 Simulated: the stream object (segmentation, EOF point, trailing data).
 """
+import os
 import copy
 import io
 
@@ -131,17 +132,21 @@ class Stream(Engine):
         return {'tx': C.CTransaction, 'mtx': C.CMutableTransaction, 'header': C.CBlockHeader, 'block': C.CBlock}[kind]
 
     # ---- items of several megabytes (legal: far below the 32 MiB cap).  The plan carries a recipe only.
-    BIG_ITEMS = [(5000001, 'vin.script'), (5000000, 'wit.item'), (7654321, 'vout.script'), ((1 << 24) + 1, 'wit.item'), (1 << 20, 'vin.script')]
+    BIG_ITEMS = [(5000001, 'vin.script'), (5000000, 'wit.item'), (7654321, 'vout.script'), ((1 << 24) + 1, 'wit.item'), (1 << 20, 'vin.script'),
+                 # ... and vectors of very many small elements (counts beyond 2^16 and 2^17: no rule caps them)
+                 (65537, 'many.vout'), (131073, 'many.vout'), (70001, 'many.vin'), (131073, 'many.wititems')]
 
     def systematic(self, prop, tier):
         plans = []
         for k, (n, where) in enumerate(self.BIG_ITEMS):
+            if os.environ.get('VERIF_PYMODE') and (where.startswith('many.') or n > 6000000):
+                continue            # the most expensive recipes are tried once, in the main pass
             tx = {'version': 2, 'vin': [{'hash': '%064x' % (k + 1), 'n': k, 'script': '51', 'seq': 0xfffffffe}, {'hash': '%064x' % (k + 77), 'n': 1, 'script': '', 'seq': 5}],
-                  'vout': [{'value': 5000 + k, 'script': '76a9'}], 'locktime': 101 + k, 'wit': [['aa'], []] if where == 'wit.item' or k % 2 else None,
+                  'vout': [{'value': 5000 + k, 'script': '76a9'}], 'locktime': 101 + k, 'wit': [['aa'], []] if where in ('wit.item', 'many.wititems') or k % 2 else None,
                   'big_item': {'where': where, 'len': n, 'byte': 0x41 + k}}
             kind = ('tx', 'mtx', 'block')[k % 3]
             spec = tx if kind != 'block' else {'version': 4, 'prev': '11' * 32, 'merkle': '00' * 32, 'time': 1600000000, 'bits': 0x207fffff, 'nonce': k,
-                                               'txs': [dict(tx, big_item=None, vin=[dict(tx['vin'][0], script='5151')]), tx], 'fix_merkle': True}
+                                               'txs': [dict(tx, big_item=None, wit=None, vin=[dict(tx['vin'][0], script='5151')]), tx], 'fix_merkle': True}
             plans.append({'engine': self.name, 'property': [prop], 'config': {'systematic': 'big-item'}, 'steps': [{'t': 0.0, 'prio': 0, 'party': 0, 'op': 'object', 'args': {
                 'kind': kind, 'spec': spec, 'offsets': [(7919 * (j + 1) * (k + 3)) % (1 << 30) for j in range(10)], 'junk': '00ff', 'sizes': [1 << 16, 4096],
                 'bufsize': 8192, 'mid_offsets': [12345, 999983], 'poison': None, 'pre_use': None}}]})
@@ -154,6 +159,16 @@ class Stream(Engine):
             if not b:
                 return {k: v for k, v in tx.items() if k != 'big_item'}
             tx = copy.deepcopy({k: v for k, v in tx.items() if k != 'big_item'})
+            if b['where'] == 'many.vout':
+                tx['vout'] = [{'value': j & 0xffff, 'script': ''} for j in range(b['len'])]
+                return tx
+            if b['where'] == 'many.vin':
+                tx['vin'] = [{'hash': '%064x' % (j + 1), 'n': j & 0xff, 'script': '', 'seq': j} for j in range(b['len'])]
+                tx['wit'] = None
+                return tx
+            if b['where'] == 'many.wititems':
+                tx['wit'] = [['%02x' % (j & 0xff) if j % 3 else '' for j in range(b['len'])]] + [[] for _ in tx['vin'][1:]]
+                return tx
             blob = ('%02x' % b['byte']) * b['len']
             if b['where'] == 'vin.script':
                 tx['vin'][0]['script'] = blob
